@@ -1057,7 +1057,8 @@ class Variable(CanBehaveLikeAVariable[T]):
     def _replace_expression_with_(self, new_expression: SymbolicExpression,
                                 parents: Optional[List] = None):
         if not parents:
-            parents = [p for p in self._node_.parents if new_expression._node_ not in p.ancestors]
+            # (identity: a graph node compares by its fields, and not every one of them is set)
+            parents = [p for p in self._node_.parents if not any(new_expression._node_ is ancestor for ancestor in p.ancestors)]
         for child in self._node_.children:
             self._node_.remove_child(child)
         for parent in parents:
